@@ -58,14 +58,22 @@ def run_steps(circ, prog, steps, names, init=None, contents=None, settle_max=Non
                 k = entity_key(e)
                 if k in contents:
                     circ.set_contents(e.num, contents[k])
-        t = circ.settle(settle_max)
-        res.append(None if t is None else observations(circ, names))
+        try:
+            t = circ.settle(settle_max)
+            res.append(None if t is None else observations(circ, names))
+        except Unmodelled:
+            # this valuation leaves the modelled domain (negative exponent, shift count, ...): the step is not
+            # judged, the remaining steps still are
+            res.append("unmodelled")
+            circ.reset()
     return res
 
 
 def compare(resA, resB, names, label):
     fails = []
     for i, (a, b) in enumerate(zip(resA, resB)):
+        if a == "unmodelled" or b == "unmodelled":
+            continue
         if a is None or b is None:
             if (a is None) != (b is None):
                 fails.append({"sig": "settle-differs", "detail": {"step": i, "A_settled": a is not None, "B_settled": b is not None, "label": label}})
@@ -117,17 +125,19 @@ def twin_check(progA, progB, case, names, steps, init=None, contents=None, optim
     uniq = {}
     for f in fails:
         uniq.setdefault(f["sig"], f)
-    differing = len({repr(r) for r in resA if r is not None}) > 1
+    differing = len({repr(r) for r in resA if r is not None and r != "unmodelled"}) > 1
     return {"failures": list(uniq.values()), "varies": differing, "sample": sample, "circA": ca, "circB": cb,
             "obsA": resA}
 
 
-def anchor_multiset(circ):
+def anchor_multiset(circ, skip=()):
     """Name-agnostic view: sorted list of (advertised signal class, value) of every output anchor,
     plus user entities with their condition state."""
     anchors = []
     for e in circ.entities.values():
         if e.desc["op"] == "output anchor":
+            if e.desc["name"] in skip:
+                continue
             net = circ.read_input(e.num)
             adv = e.desc["signal"]
             if adv in ("bundle", "signal-each", "signal-everything", None):
@@ -144,7 +154,7 @@ def anchor_multiset(circ):
     return sorted(anchors, key=repr), ents
 
 
-def agnostic_twin(progA, progB, case, steps, init, optimize=True):
+def agnostic_twin(progA, progB, case, steps, init, optimize=True, skipA=(), skipB=()):
     textA, ra = build(progA, case.get("opts", {}), optimize, case.get("sched"))
     textB, rb = build(progB, case.get("opts", {}), optimize, case.get("sched"))
     sample = {"A": textA, "B": textB}
@@ -163,13 +173,13 @@ def agnostic_twin(progA, progB, case, steps, init, optimize=True):
         for i, stp in enumerate(steps):
             val.update(stp)
             res = []
-            for c, p, im in ((ca, progA, ima), (cb, progB, imb)):
+            for c, p, im, skip in ((ca, progA, ima, skipA), (cb, progB, imb, skipB)):
                 c.reset()
                 missing = obs.apply_inputs(c, p, val, im)
                 if [m for m in missing if m in lang.referenced_names(p)]:
                     return {"discard": "input-unlabelled"}
                 t = c.settle()
-                res.append(None if t is None else anchor_multiset(c))
+                res.append(None if t is None else anchor_multiset(c, skip))
             a, b = res
             if a is None or b is None:
                 if (a is None) != (b is None):
